@@ -1,6 +1,6 @@
 (* C14 - Transactions survive DSL and JSON round trips.  Statements only. *)
-From Coq Require Import ZArith NArith List Bool Ascii String.
-Require Import CGT.Model.Date CGT.Model.Dsl CGT.Proofs.DslFacts CGT.Proofs.DecFacts.
+From Coq Require Import ZArith NArith List Bool Ascii String Lia.
+Require Import CGT.Model.Date CGT.Model.Dsl CGT.Proofs.DslFacts CGT.Proofs.DecFacts CGT.Proofs.DslRound.
 Import ListNotations.
 Open Scope N_scope.
 
@@ -27,3 +27,39 @@ Proof. split; vm_compute; reflexivity. Qed.
 Print Assumptions C14_dec_roundtrip.
 Print Assumptions C14_print_ignores_zero_label.
 Print Assumptions C14_norm_idempotent.
+
+(* The whole DSL round trip, for transaction lists of any length: every transaction the code can hold and write
+   (valid date in years 0..9999, non-empty upper-case alphanumeric ticker, decimals within 96 bits and 28 places,
+   three-letter upper-case currency codes the table accepts - TAX and BUY are keywords, not codes) is read back from
+   the written text exactly, except that a zero fee or tax, which the writer omits, comes back as zero GBP. *)
+Theorem C14_dsl_roundtrip : forall (valid_cur : text -> bool) (ts : list dtxn),
+  Forall (wf_txn valid_cur) ts -> parse valid_cur (print_txns ts) = inr (map norm_txn ts).
+Proof. exact parse_print. Qed.
+Print Assumptions C14_dsl_roundtrip.
+
+(* one line at a time: nothing about a line depends on its neighbours *)
+Theorem C14_line_roundtrip : forall (valid_cur : text -> bool) (t : dtxn),
+  wf_txn valid_cur t -> parse_line valid_cur (print_txn t) = LTx (norm_txn t) None.
+Proof. exact parse_line_print. Qed.
+Print Assumptions C14_line_roundtrip.
+
+(* non-vacuity: a purchase in a foreign currency with a fee, a dividend without tax and a split are well-formed, and are read back *)
+Definition c14_usd : text := T "USD".
+Definition c14_ex : list dtxn :=
+  [ {| x_date := {| dy := 2024; dm := 2; dd := 29 |}; x_tick := T "BRK9";
+       x_op := DBuy {| d_mant := 1500; d_scale := 3 |} {| m_amt := {| d_mant := 12345; d_scale := 2 |}; m_cur := c14_usd |}
+                    {| m_amt := {| d_mant := 5; d_scale := 1 |}; m_cur := GBP |} |};
+    {| x_date := {| dy := 2024; dm := 12; dd := 31 |}; x_tick := T "X";
+       x_op := DDividend {| m_amt := {| d_mant := 100; d_scale := 0 |}; m_cur := GBP |} {| m_amt := {| d_mant := 0; d_scale := 2 |}; m_cur := c14_usd |} |};
+    {| x_date := {| dy := 2025; dm := 1; dd := 1 |}; x_tick := T "X"; x_op := DSplit {| d_mant := 25; d_scale := 1 |} |} ].
+Example C14_roundtrip_applies : Forall (wf_txn (fun _ => true)) c14_ex /\
+  parse (fun _ => true) (print_txns c14_ex) = inr (map norm_txn c14_ex) /\ map norm_txn c14_ex <> c14_ex.
+Proof.
+  assert (Hc : forall a b e, is_upper a = true -> is_upper b = true -> is_upper e = true -> [a; b; e] <> KW_TAX -> [a; b; e] <> KW_BUY ->
+               wf_cur (fun _ => true) [a; b; e]).
+  { intros a b e Ha Hb He H1 H2. exists a, b, e. repeat split; assumption. }
+  assert (Husd : wf_cur (fun _ => true) c14_usd) by (apply Hc; try reflexivity; discriminate).
+  assert (Hgbp : wf_cur (fun _ => true) GBP) by (apply Hc; try reflexivity; discriminate).
+  split; [|split; [vm_compute; reflexivity|discriminate]].
+  repeat constructor; try reflexivity; try discriminate; cbn; try lia; assumption.
+Qed.
